@@ -142,6 +142,18 @@ Theorem C13_recreate_after_last_leave_http : forall reqs sched lo hi c jt j gid 
 Proof. exact recreate_after_last_leave_http. Qed.
 Print Assumptions C13_recreate_after_last_leave_http.
 
+(* server-chosen port (remotePort = 0): when the only member leaves, the chosen port is no longer booked
+   in the port manager, and a new group asking for "any port" can get exactly that port again *)
+Theorem C13_recreate_with_server_chosen_port : forall s gid g lid s' j' lid',
+  nth_error (s_heap s) gid = Some g -> g_lns g = [lid] ->
+  leave_chan KTcp s gid lid = Some s' ->
+  rmem [g_real g] (s_used s') = false /\
+  (j_group j' = g_name g -> j_port j' = 0 -> j_pick j' = g_real g -> g_real g <> 0 ->
+   allowed s (g_real g) = true -> j_lis j' = true ->
+   exists s'', join_seq KTcp s' j' lid' = (s'', JOk (g_real g))).
+Proof. exact recreate_tcp_port0. Qed.
+Print Assumptions C13_recreate_with_server_chosen_port.
+
 (* ---- connections ---- *)
 (* a connection held by the worker is delivered only when the channel is open, to exactly the listener
    whose Accept took it, and that listener belongs to this group object and its accept loop is still
